@@ -68,7 +68,12 @@ func c01flag(v ssa.Value, f *ssa.Function) (bool, bool) {
 
 // presentAt: block b is dominated by the present edge of a flag test; absentAt: by the absent edge.
 func c01edge(b *ssa.BasicBlock, f *ssa.Function) (present, absent bool) {
-	for _, cnd := range core.EdgeFacts(b) {
+	return c01edgeOf(core.EdgeFacts(b), f)
+}
+
+// c01edgeOf classifies a set of facts: do they include the present / the absent outcome of a flag test?
+func c01edgeOf(facts []core.Cond, f *ssa.Function) (present, absent bool) {
+	for _, cnd := range facts {
 		n := core.Normalize(cnd)
 		if absentWhenTrue, ok := c01flag(n.V, f); ok {
 			if absentWhenTrue == n.True {
@@ -358,19 +363,15 @@ func runC01(c *core.Ctx) {
 		// absent edge result
 		var got []string
 		nAbsent := 0
-		core.Instrs(m, func(ins ssa.Instruction) {
-			r, isR := ins.(*ssa.Return)
-			if !isR || r.Block() == m.Recover {
-				return
-			}
-			if _, abs := c01edge(r.Block(), m); abs {
+		for _, rc := range core.ReturnCases(m) {
+			if _, abs := c01edgeOf(rc.Facts, m); abs {
 				nAbsent++
 				got = []string{}
-				for _, v := range core.RetVals(r) {
+				for _, v := range rc.Vals {
 					got = append(got, c01describe(v, m))
 				}
 			}
-		})
+		}
 		if name == "Let" {
 			// absent edge: no call at all (single return shared by both edges is fine as long as the call is on the present edge)
 			if bad == "" {
@@ -406,13 +407,11 @@ func runC01(c *core.Ctx) {
 			continue
 		}
 		ok := false
-		core.Instrs(m, func(ins ssa.Instruction) {
-			if r, isR := ins.(*ssa.Return); isR {
-				if pres, _ := c01edge(r.Block(), m); pres && core.FieldKey(core.Unwrap(core.RetVals(r)[0])) == "someDef.ref" {
-					ok = true
-				}
+		for _, rc := range core.ReturnCases(m) {
+			if pres, _ := c01edgeOf(rc.Facts, m); pres && core.FieldKey(core.Unwrap(core.Resolve(rc.Vals[0]))) == "someDef.ref" {
+				ok = true
 			}
-		})
+		}
 		c.Check(ok, "R3", "someDef."+name+"/present", p.Pos(m.Pos()), "present edge returns the wrapped value itself", name+" does not return the wrapped value itself when present")
 	}
 	for name, field := range map[string]string{"IsPresent": "someDef.isPresent", "IsNil": "someDef.isNil"} {
